@@ -139,8 +139,17 @@ contract("molecule.Molecule.__init__", trusted=True,
          why_trusted="string surgery of the molecule parser (outside the engine's reach; bounded C01 / C02 / C15 drivers); here only: it returns or raises",
          props=["C15"], params=dict(self=Ref("Molecule"), big_smiles_ext=STR, res_id_prefix=INT), defaults={"res_id_prefix": 0}, returns=None,
          ensures=[], raises_may={"RuntimeError": "True", "ValueError": "True", "IndexError": "True", "TypeError": "True", "Exception": "True"}, modifies=[])
-contract("molecule.Molecule.residues", is_property=True, trusted=True, why_trusted="concatenation of the elements' residue lists; only its length is used (residue numbering)",
-         props=["C15"], params=dict(self=Ref("Molecule")), returns=List(Ref("SmilesToken")), ensures=["fresh(result)"], modifies=[])
+# residues of a molecule / a system: the elements' (molecules') residue lists appended in written order into a fresh list.  Only freshness and "every entry is a token"
+# are stated: the callers use the length for residue numbering (the count itself is a fold that no clause here pins down: bounded C05 / C06 drivers)
+_MRES = {"fresh(result)": "a-fresh-list"}
+contract("molecule.Molecule.residues", is_property=True,
+         props=["C05", "C15"], params=dict(self=Ref("Molecule")), returns=List(Ref("SmilesToken")), ensures=list(_MRES), labels=_MRES, modifies=[], allocates=True,
+         loops={1: dict(anchor="element in self._elements", locals={"residues": List(Ref("SmilesToken"))}, stable=["residues"], modifies=["list@residues"],
+                        inv=["fresh(residues)"])})
+contract("system.System.residues", is_property=True,
+         props=["C05"], params=dict(self=Ref("System")), returns=List(Ref("SmilesToken")), ensures=list(_MRES), labels=_MRES, modifies=[], allocates=True,
+         loops={1: dict(anchor="mol in self._molecules", locals={"residues": List(Ref("SmilesToken"))}, stable=["residues"], modifies=["list@residues"],
+                        inv=["fresh(residues)"])})
 contract("system._estimate_system_molecular_weight", trusted=True,
          why_trusted="the mass inference (five loops over the components, Mixture setters): C12's bounded driver with an independent solver; here only: it returns a flag or raises",
          props=["C12"], params=dict(molecules=List(Ref("Molecule")), system_molweight=Opt(REAL)), returns=BOOL, ensures=[],
